@@ -85,6 +85,9 @@ func c18Rules(tier string) []Rule {
 		// ---- provider objects
 		core.Custom{ID: "C18.WSET1", Kind: "WSET", Run: c18ProviderStores},
 		core.Custom{ID: "C18.WSET2", Kind: "WSET", Run: c18OptionSlices},
+		// ---- Node objects: the scheduler only ever reads Nodes (of its deep copies, and — through the pod-affinity
+		// callbacks of Cluster — of the live cluster state), so nothing in the cone writes through a corev1.Node
+		core.Custom{ID: "C18.WSET5", Kind: "WSET", Run: c18NodeObjects},
 		core.Custom{ID: "C18.WSET3", Kind: "WSET", Run: c18CacheAliases},
 		// ---- capacity buffer pods (F9) and relaxation copy
 		WMC{ID: "C18.WSET4a", Sink: `^(call|go|defer) \(\*state/virtualpods\.Cache\)\.GetAll\(`, Allowed: []string{"(*prov.Provisioner).GetPendingPods"}, Required: []string{"(*prov.Provisioner).GetPendingPods"}},
@@ -476,4 +479,33 @@ func c18UncopiedKind(w *core.World, st *ssa.Store) string {
 		}
 	}
 	return ""
+}
+
+// c18NodeObjects: no store / map update / in-place mutation through a corev1.Node anywhere in the simulation cone.
+func c18NodeObjects(w *core.World, id string) []core.Result {
+	order, parent, missing := coneFns(w, append(append([]string{}, c18Roots...), c18SolveRoots...))
+	if missing != "" {
+		return []core.Result{core.Anchor(id, "WSET", missing)}
+	}
+	typs := map[string]bool{"corev1.Node": true}
+	var out []core.Result
+	for _, in := range w.StructFieldStores(order, typs) {
+		name := core.FnName(core.RootFn(in.Parent()))
+		out = append(out, core.Bad(id, "WSET", "WSET:node-objects@"+name, w.InstrPos(in),
+			fmt.Sprintf("a simulation writes into a Node object (cluster state hands out its live Nodes to the affinity callbacks): `%s` in %s (reached via %s)", clipStr(w.RenderInstr(in), 100), name, core.PathTo(parent, in.Parent()))))
+	}
+	// positive control: the scan sees a known Node writer outside the cone
+	ctl := 0
+	for _, in := range w.StructFieldStores(w.Fns, typs) {
+		if !core.IsTestSupport(in.Parent()) {
+			ctl++
+		}
+	}
+	if ctl < 3 {
+		out = append(out, core.Bad(id, "WSET", "WSET:node-objects:control", "", fmt.Sprintf("control-missed: only %d Node writers found in the whole program (termination / registration write Nodes) — analyzer broken", ctl)))
+	}
+	if len(out) == 0 {
+		out = append(out, core.OK(id, "WSET", "WSET:node-objects", len(order), fmt.Sprintf("cone of %d functions: no write through a corev1.Node (%d writers exist outside the cone)", len(order), ctl)))
+	}
+	return out
 }
